@@ -209,6 +209,140 @@ def r3_field_ranges(chk, F):
                detail={"bound": b})
 
 
+def r6_time_of_day_flow(chk, F):
+    """Operand flow of the time of day through compute_gregorian: the fields decompose() hands out keep their roles.
+    Before the reference date the time is rebuilt as 24 h - compose(0, 0, h, min, s, ms, us, ns) of the *same* decomposition,
+    argument k from output k; the sub-second fields of whichever decomposition is returned are recombined with weights
+    ns + 10^3 us + 10^6 ms, hours/minutes/seconds are its outputs 2, 3, 4."""
+    rule = "C09.R6"
+    cg = F.find1(self_ty="Epoch", name="compute_gregorian", trait="")
+    defs = cfg.unique_defs(cg)
+    decs = {}
+    comps = []
+    for bi, t in cfg.calls(cg):
+        nm = cfg.callee_name(t["f"])
+        if nm.endswith("Duration::decompose"):
+            decs[t["dest"]["l"]] = (bi, t)
+        elif nm.endswith("Duration::compose"):
+            comps.append((bi, t))
+    chk.info("compute_gregorian: %d decompose call(s), %d compose call(s)" % (len(decs), len(comps)))
+    if len(comps) != 1:
+        # another way of rebuilding the time of day: the role-preservation rule below has nothing to say about it
+        chk.info("C09.R6 recomposition rule not applicable (no single Duration::compose call in compute_gregorian)")
+        return
+    bi, t = comps[0]
+    rs = [cfg.resolve(cg, a, defs) for a in t["args"]]
+    ok = len(rs) == 8 and all(r[0] == "const" and r[1]["v"] == 0 for r in rs[:2])
+    src = set()
+    for k in range(2, 8):
+        r = rs[k] if k < len(rs) else ("?",)
+        good = r[0] == "place" and r[1]["l"] in decs and len(r[1]["pj"]) == 1 and r[1]["pj"][0].get("f") == k
+        ok = ok and good
+        if r[0] == "place":
+            src.add(r[1]["l"])
+    ok = ok and len(src) == 1
+    chk.ob(rule, "Epoch::compute_gregorian", "compose(0,0,d.2,d.3,d.4,d.5,d.6,d.7)-of-one-decomposition", ok, "E5 operand flow (argument k = output k)",
+           detail=None if ok else [repr(r)[:120] for r in rs])
+    # the decomposition that is recomposed is that of the value being decomposed in the other branch too (duration_wrt_ref)
+    if src:
+        first = decs[next(iter(src))][1]
+        others = [tt for l, (b2, tt) in decs.items() if l not in src]
+        a0 = cfg.resolve(cg, first["args"][0], defs)
+        same = [tt for tt in others if repr(cfg.resolve(cg, tt["args"][0], defs)) == repr(a0)]
+        chk.ob(rule, "Epoch::compute_gregorian", "recomposed-decomposition-is-of-duration_wrt_ref", len(same) == 1, "E5 operand flow",
+               detail=None if len(same) == 1 else {"arg": repr(a0)[:200]})
+    # returned tuple: fields 3,4,5 are casts of outputs 2,3,4 and field 6 is ns + us*10^3 + ms*10^6 of one decomposition (phi of the branches)
+    aggs = [s for b2, si, s in cfg.stmts(cg) if s["k"] == "a" and s["p"]["l"] == 0 and not s["p"]["pj"] and s["r"]["op"] == "agg" and s["r"]["ak"] == "tuple"]
+    if len(aggs) != 1:
+        return
+    alld = _all_defs(cg)
+
+    def sources(o, depth=0):
+        """set of (decompose dest local, field) an operand may carry (through the branch-merging tuple and copies)"""
+        p = cfg.operand_place(o)
+        if p is None or depth > 12:
+            return {("?", repr(o)[:40])}
+        out = set()
+        if p["pj"]:
+            if p["l"] in decs and len(p["pj"]) == 1 and "f" in p["pj"][0]:
+                return {(p["l"], p["pj"][0]["f"])}
+            # field i of a local tuple built by aggregates in the branches
+            if len(p["pj"]) == 1 and "f" in p["pj"][0]:
+                for r in alld.get(p["l"], []):
+                    if r["op"] == "agg" and r["ak"] == "tuple":
+                        out |= sources(r["xs"][p["pj"][0]["f"]], depth + 1)
+                    else:
+                        out.add(("?", r["op"]))
+                return out or {("?", "no-def")}
+            return {("?", "proj")}
+        for r in alld.get(p["l"], []):
+            if r["op"] == "use":
+                out |= sources(r["x"], depth + 1)
+            elif r["op"] == "cast" and r["ck"] == "IntToInt":
+                out |= sources(r["x"], depth + 1)
+            else:
+                out.add(("?", r["op"]))
+        return out or {("?", "no-def")}
+    xs = aggs[0]["r"]["xs"]
+    for i, want in ((3, 2), (4, 3), (5, 4)):
+        got = sources(xs[i])
+        ok = bool(got) and all(g[0] in decs and g[1] == want for g in got)
+        chk.ob(rule, "Epoch::compute_gregorian", "field%d=decompose-output-%d" % (i, want), ok, "E5 operand flow through the branch merge",
+               detail=None if ok else sorted(map(repr, got)))
+    # nanoseconds: (nanos + microseconds * 1_000 + milliseconds * 1_000_000) as u32
+    def linear(o, depth=0):
+        """{field: weight} of a sum of products of decompose outputs with constants, or None"""
+        p = cfg.operand_place(o)
+        k = cfg.operand_const(o)
+        if k is not None:
+            return {"const": k["v"]}
+        if p is None or depth > 14:
+            return None
+        if len(p["pj"]) == 1 and p["pj"][0].get("f") == 0 and p["l"] not in decs and any(r["op"] == "bin" and r["b"].endswith("WithOverflow") for r in alld.get(p["l"], [])):
+            # (value, overflowed) pair of a checked operation: the value
+            p = {"l": p["l"], "pj": []}
+        rs2 = alld.get(p["l"], []) if not p["pj"] else []
+        if p["pj"] or not rs2:
+            got = sources(o)
+            if all(g[0] in decs for g in got) and len({g[1] for g in got}) == 1:
+                return {next(iter(got))[1]: 1}
+            return None
+        res = None
+        for r in rs2:
+            cur = None
+            if r["op"] in ("use",) or (r["op"] == "cast" and r["ck"] == "IntToInt"):
+                cur = linear(r["x"], depth + 1)
+            elif r["op"] == "bin" and r["b"] in ("Add", "AddWithOverflow"):
+                a, b = linear(r["l"], depth + 1), linear(r["r"], depth + 1)
+                if a is not None and b is not None:
+                    cur = dict(a)
+                    for kk, vv in b.items():
+                        cur[kk] = cur.get(kk, 0) + vv
+            elif r["op"] == "bin" and r["b"] in ("Mul", "MulWithOverflow"):
+                a, b = linear(r["l"], depth + 1), linear(r["r"], depth + 1)
+                if a is not None and b is not None:
+                    if set(a) == {"const"}:
+                        cur = {kk: vv * a["const"] for kk, vv in b.items()}
+                    elif set(b) == {"const"}:
+                        cur = {kk: vv * b["const"] for kk, vv in a.items()}
+            elif r["op"] == "use" or (r["op"] == "field"):
+                cur = None
+            else:
+                got = sources(o)
+                if all(g[0] in decs for g in got) and len({g[1] for g in got}) == 1:
+                    cur = {next(iter(got))[1]: 1}
+            if cur is None:
+                return None
+            if res is not None and res != cur:
+                return None
+            res = cur
+        return res
+    lin = linear(xs[6])
+    want = {7: 1, 6: 1000, 5: 1000000}
+    chk.ob(rule, "Epoch::compute_gregorian", "nanoseconds=out7+10^3*out6+10^6*out5", lin == want, "linear form over decompose outputs (E1, structural)",
+           detail=None if lin == want else {"got": lin})
+
+
 def _all_defs(fn):
     out = {}
     for bi, si, s in cfg.stmts(fn):
@@ -436,6 +570,7 @@ def run(chk, F, tier):
     r3_field_ranges(chk, F)
     r4_writers(chk, F)
     r5_accessors(chk, F)
+    r6_time_of_day_flow(chk, F)
     eng, D = ctx(F)
     chk.extra["engine_stats"] = dict(eng.stats)
     chk.assumptions.append("decompose's output ranges are C11.R1's; conv(e,S) uninterpreted")
